@@ -56,6 +56,8 @@ def _net():
     pp.create_pwl_cost(net, net.load.index[0], "load", [[0., 5., 1.]])
     pp.create_measurement(net, "p", "line", 1., 0.1, net.line.index[0], side="from")
     pp.create_measurement(net, "p", "trafo3w", 1., 0.1, t3, side="hv")
+    pp.create_measurement(net, "p", "load", 1., 0.1, net.load.index[5])
+    pp.create_measurement(net, "q", "gen", 1., 0.1, net.gen.index[0])
     pp.runpp(net)
     return net
 
@@ -82,6 +84,7 @@ def main(include_known=False):
            ("reindex_elements(trafo3w)", lambda n: pp.reindex_elements(n, "trafo3w", [int(n.trafo3w.index[0]) + 50])),
            ("reindex_elements(line)", lambda n: pp.reindex_elements(n, "line", list(n.line.index + 100))),
            ("reindex_elements(gen)", lambda n: pp.reindex_elements(n, "gen", list(n.gen.index + 7))),
+           ("reindex_elements(load, part of the loads)", lambda n: pp.reindex_elements(n, "load", lookup={int(n.load.index[5]): 500, int(n.load.index[0]): 501})),
            ("create_continuous_elements_index", lambda n: pp.create_continuous_elements_index(n, start=3)),
            ("select_subnet(buses around the gen, without the ext_grid)", lambda n: pp.select_subnet(
                n, [b for b in n.bus.index if b != n.ext_grid.bus.iloc[0] and b != n.load.bus.at[n.load.index[0]]])),
